@@ -27,6 +27,7 @@ var (
 	fSeed     = flag.Uint64("sim.seed", 1, "VERIF_SEED")
 	fWorker   = flag.Int("sim.worker", 0, "worker index")
 	fBudget   = flag.Duration("sim.budget", 10*time.Second, "wall-clock budget of this worker")
+	fFresh    = flag.Bool("sim.fresh", false, "one simulated run per OS process, nothing re-executed in it (code under test that keeps state in package-level variables)")
 	fMaxRuns  = flag.Int("sim.maxruns", 30000, "runs after which the worker process ends (leaked zombie goroutines are bounded that way)")
 	fOut      = flag.String("sim.out", "", "result file (json)")
 	fFile     = flag.String("sim.file", "", "replay file")
@@ -529,6 +530,15 @@ func runEngine(t *testing.T, eng *engine) {
 	_ = flag.Set("rapid.nofailfile", "true")
 	_ = flag.Set("rapid.checks", "100")
 	_ = flag.Set("rapid.shrinktime", "8s")
+	var freshRes *Result
+	if *fFresh {
+		// Fresh mode: this process makes exactly one simulated run and never executes the engine a
+		// second time (no re-check, no shrinking, the replay file is written from the run itself):
+		// package-level state of the code under test then starts from scratch in every run, as it
+		// does in the fresh process that confirms a violation.
+		_ = flag.Set("rapid.checks", "1")
+		*fMaxRuns = 1
+	}
 
 	batch := *fBatch
 	var fail struct {
@@ -588,9 +598,16 @@ search:
 			if shrinkSig == "" && time.Now().After(deadline) {
 				return // budget used up in the middle of a batch: let the batch end at once
 			}
-			res := eng.run(t, in, false)
+			res := eng.run(t, in, *fFresh)
 			if res.HarnessErr != "" {
 				harnessExit(out, res.HarnessErr, in)
+			}
+			if res.Abandoned != "" {
+				if shrinkSig == "" {
+					out.Counters["run.abandoned-stall-after-restart"]++
+				}
+				res.Release()
+				return
 			}
 			if shrinkSig == "" {
 				out.Runs++
@@ -612,7 +629,7 @@ search:
 					}
 				}
 				// continuous determinism re-check on a sample of runs
-				if out.Runs%64 == 1 {
+				if out.Runs%64 == 1 && !*fFresh {
 					again := eng.run(t, in, true)
 					defer again.Release()
 					out.DetChecks++
@@ -650,20 +667,40 @@ search:
 				}
 				if v.Sig() == shrinkSig {
 					fail.in, fail.v, fail.seed = in, v, rseed
+					if *fFresh {
+						freshRes = res // rapid must not run the property again: the case "passes"
+						return
+					}
 					res.Release()
 					rt.Fatalf("%s", v.Sig())
 				}
 			}
 			res.Release()
 		})
-		if !tb.failed {
+		if *fFresh {
+			// nothing: a violation was recorded without failing the rapid case
+		} else if !tb.failed {
 			fail.in = nil
 		} else if fail.in == nil {
 			harnessExit(out, "rapid reported a failure that is not a property violation: "+strings.Join(tb.msgs, " | "), nil)
 		}
 		batch++
 	}
-	if fail.in != nil {
+	if fail.in != nil && *fFresh {
+		// fresh mode: the replay file is written from the run itself, nothing is executed again
+		path := writeReplayFrom(eng, fail.in, fail.v, fail.seed, freshRes)
+		if freshProcessReproduces(path) {
+			v := fail.v
+			out.Violation = &v
+			out.Replay = path
+		} else {
+			_ = os.Remove(path)
+			out.Counters["violation.dropped-not-reproducible-in-a-fresh-process"]++
+			out.Unreproducible = fail.v.Prop + "/" + fail.v.Class + ": " + fail.v.Detail
+			fail.in = nil
+		}
+		batch++
+	} else if fail.in != nil {
 		// A violation counts only if a fresh process reproduces it from the replay file alone:
 		// code under test that keeps state in package-level variables (a recycled buffer, a shared
 		// decoding target) makes a run depend on the runs this process made before it. The
@@ -779,6 +816,15 @@ func engineDigest(t *testing.T, eng *engine) {
 
 func writeReplay(t *testing.T, eng *engine, in any, v Violation, rseed uint64, knownFinding bool) string {
 	res := eng.run(t, in, true)
+	return writeReplayOf(eng, in, v, rseed, knownFinding, res)
+}
+
+// writeReplayFrom writes the replay file of a run that has already been made (fresh mode).
+func writeReplayFrom(eng *engine, in any, v Violation, rseed uint64, res *Result) string {
+	return writeReplayOf(eng, in, v, rseed, false, res)
+}
+
+func writeReplayOf(eng *engine, in any, v Violation, rseed uint64, knownFinding bool, res *Result) string {
 	rf := &ReplayFile{Property: v.Prop, Class: v.Class, Detail: v.Detail, Features: v.Features, Seed: *fSeed, RapidSeed: rseed,
 		Engine: eng.name, Tool: "verifsim/synctest go1.26.8 rapid v1.3.0", Digest: res.Digest, Trace: res.Lines}
 	if len(fineSiteList) > 0 {
